@@ -493,3 +493,95 @@ class Local_init(_Local):
 
 
 SPECS = [Local_has_blob, Local_fetch_blob, Local_store_blob, Local_sync_paths, Local_fetch_paths, Local_init]
+
+
+# =================================================================================================
+# crash safety (C06): a crash condition after every file-system effect, CHL style
+# =================================================================================================
+
+
+class _Crash:
+    """mix-in: after every effect, the state a kill -9 would leave must be Recoverable"""
+
+    crash_mode = True
+
+    def visible_ok(self, fs, so, k):
+        root = so.fields["_root"].term
+        return z3.Implies(
+            fs.exists(blob_p(root, k)),  # what has_blob answers in the recovery process
+            z3.And(fs.kind[blob_p(root, k)] == FILE, fs.complete[blob_p(root, k)], fs.kind[meta_p(root, k)] == FILE, fs.complete[meta_p(root, k)], REGISTERED(PROTO_OF(fs.content[meta_p(root, k)]))),
+        )
+
+    def path_ok(self, fs, fs0, so, q, new_key=None):
+        """a path committed before the crash still resolves to a complete blob: its old one or the new one"""
+        root, data = so.fields["_root"].term, so.fields["_data_root"].term
+        loc = loc_p(data, q)
+        tgt = fs.resolve(loc)
+        ok_old = z3.And(fs.kind[loc] == LINK, tgt == fs0.resolve(loc))
+        ok = ok_old if new_key is None else z3.Or(ok_old, z3.And(fs.kind[loc] == LINK, tgt == blob_p(root, new_key)))
+        return z3.Implies(fs0.lexists(loc), z3.And(ok, fs.lexists(tgt)))
+
+    def on_fs_effect(self, eng, what, p, n):
+        ctx = self.ctx
+        fs, fs0, so = eng.st.globals["__fs__"], ctx.old_globals["__fs__"], ctx.args["self"]
+        tag = "crash_after:%s" % what
+        k = z3.Const(sv.fresh_name("k"), KEY.sort())
+        q = z3.Const(sv.fresh_name("q"), PATH.sort())
+        cur_key, cur_path, new_key = self.crash_focus(eng)
+        self._classes = {}
+        # R1: every blob the recovery process would see as present is complete and has its metadata
+        g1 = z3.ForAll([k], self.visible_ok(fs, so, k))
+        if cur_key is not None:
+            self._classes[tag + ":visible_blobs_are_complete"] = {"blob_visible_before_commit": z3.Not(self.visible_ok(fs, so, cur_key))}
+        eng.oblige(tag + ":visible_blobs_are_complete", g1, kind="crash", cut=False)
+        # R3: paths committed before still serve a complete value (old or new)
+        g3 = z3.ForAll([q], self.path_ok(fs, fs0, so, q, None if cur_path is None else None))
+        if cur_path is not None:
+            g3 = z3.ForAll([q], z3.If(q == cur_path, self.path_ok(fs, fs0, so, q, new_key), self.path_ok_loop(fs, so, q)))
+            self._classes[tag + ":committed_paths_still_resolve"] = {"unlink_before_relink": z3.Not(self.path_ok(fs, fs0, so, cur_path, new_key))}
+        eng.oblige(tag + ":committed_paths_still_resolve", g3, kind="crash", cut=False)
+
+    def path_ok_loop(self, fs, so, q):
+        root, data = so.fields["_root"].term, so.fields["_data_root"].term
+        loc = loc_p(data, q)
+        kk = z3.Const(sv.fresh_name("kk"), KEY.sort())
+        return z3.Implies(fs.lexists(loc), z3.And(fs.kind[loc] == LINK, z3.Exists([kk], z3.And(fs.resolve(loc) == blob_p(root, kk), fs.lexists(blob_p(root, kk))))))
+
+    def crash_focus(self, eng):
+        return None, None, None
+
+    def finding_classes(self, ctx):
+        return getattr(self, "_classes", {})
+
+
+class Local_store_blob_crash(_Crash, Local_store_blob):
+    variant = "crash points"
+
+    def crash_focus(self, eng):
+        return self.ctx.args["key"].term, None, None
+
+    def ensures(self, ctx):
+        return [("completed", True)]
+
+    def signals(self, ctx):
+        return [("completed", True)]
+
+
+class Local_sync_paths_crash(_Crash, Local_sync_paths):
+    variant = "crash points"
+
+    def crash_focus(self, eng):
+        env = eng.frames[-1].env if eng.frames else {}
+        p, k = env.get("path"), env.get("key")
+        if isinstance(p, Sym) and isinstance(k, Sym):
+            return None, p.term, k.term
+        return None, None, None
+
+    def ensures(self, ctx):
+        return [("completed", True)]
+
+    def signals(self, ctx):
+        return [("completed", True)]
+
+
+CRASH_SPECS = [Local_store_blob_crash, Local_sync_paths_crash]
